@@ -48,6 +48,7 @@ from .core import Check, MachineryError, sha, workdir
 PID = "C11"
 NAMES = ["a", "b", "c", "d", "e", "f", "g", "h"]
 SPECIAL = {"data-x", "class"}
+FLAG = "required"       # every probe tag declares allowed_flags=[FLAG]
 RANK = {"po": 1, "pk": 2, "va": 3, "ko": 4, "vk": 5}
 INVARIANTS = ["TypeOK", "MachineAgreesWithDeclarative", "EveryValueBoundOnce",
               "KeysNonIdentifierOnlyViaKwargs", "PositionalOnlyNeverByKeyword", "Export"]
@@ -103,20 +104,33 @@ def well_formed(sig: List[Dict[str, Any]]) -> bool:
 def call_sources(call: List[Dict[str, Any]], variant: int) -> Tuple[str, Dict[str, Any], str]:
     """(template arguments, context, literal Python arguments) of an abstract call.
     The j-th supplied value is the integer j.  `variant` chooses between literal lists/dicts in
-    the template and context variables."""
+    the template and context variables (bit 0, alternating per item) and between literal ints and
+    context variables for single values (bit 1)."""
     tpl: List[str] = []
     py: List[str] = []
     ctx: Dict[str, Any] = {}
     v = 0
+    by_var = (variant // 2) % 2 == 1
+    has_fv = any(it.get("fv") for it in call)
+
+    def val(j: int) -> str:
+        if by_var:
+            ctx[f"v{j}"] = j
+            return f"v{j}"
+        return str(j)
     for n, it in enumerate(call):
         t = it["t"]
         if t == "P":
             v += 1
-            tpl.append(str(v))
+            tpl.append(val(v))
             py.append(str(v))
         elif t == "K":
             v += 1
-            tpl.append(f"{it['k']}={v}")
+            if it.get("fv"):        # the value is a variable that is named like the tag's flag
+                ctx[FLAG] = v
+                tpl.append(f"{it['k']}={FLAG}")
+            else:
+                tpl.append(f"{it['k']}={val(v)}")
             py.append(f"{it['k']}={v}" if it["k"] not in SPECIAL else "**{%r: %d}" % (it["k"], v))
         elif t == "L":
             vals = list(range(v + 1, v + 1 + it["n"]))
@@ -140,6 +154,8 @@ def call_sources(call: List[Dict[str, Any]], variant: int) -> Tuple[str, Dict[st
                 tpl.append(f"...d{n}")
         else:
             raise MachineryError(f"unknown item {it}")
+    if (variant // 4) % 2 == 1 and not has_fv:
+        tpl.append(FLAG)            # a flag is not an argument: it must not change the binding
     return " ".join(tpl), ctx, ", ".join(py)
 
 
@@ -156,7 +172,9 @@ def _fn_src(name: str, first: str, params: str, indent: int) -> str:
 
 class Probes:
     """The tags of one signature: `pf` (render is a plain function -> fast path) and `ps`
-    (render has no __code__ -> fallback path), registered in a private Library."""
+    (render has no __code__ -> fallback path), registered in a private Library.  `index` varies what
+    must not matter: BaseNode subclass vs @template_tag, callable object vs functools.partial,
+    tag without / with an end tag (then used self-closing `{% pf .. / %}` or as a block)."""
 
     def __init__(self, lib, sig: List[Dict[str, Any]], index: int):
         from django_components import BaseNode, template_tag
@@ -171,20 +189,29 @@ class Probes:
         except SyntaxError as e:
             raise MachineryError(f"signature {src!r} is not valid Python: {e}")
         self.fn = ns["render"]
+        self.block = index % 3 != 0
         lib.tags.pop("pf", None)
         lib.tags.pop("ps", None)
         if index % 2 == 0:
-            cls = type("VfC11Fast", (BaseNode,), {"tag": "pf", "render": self.fn})
+            cls = type("VfC11Fast", (BaseNode,), {"tag": "pf", "render": self.fn, "allowed_flags": [FLAG],
+                                                  "end_tag": "endpf" if self.block else None})
             cls.register(lib)
         else:
             fn2 = ns["render"]
             fn2.__name__ = "pf"
-            template_tag(lib, tag="pf")(fn2)
+            template_tag(lib, tag="pf", end_tag="endpf" if self.block else None, allowed_flags=[FLAG])(fn2)
         slow = ns["Obj"]() if index % 4 < 2 else functools.partial(self.fn)
         if hasattr(slow, "__code__"):
             raise MachineryError("fallback probe unexpectedly has __code__")
-        cls2 = type("VfC11Slow", (BaseNode,), {"tag": "ps", "render": slow})
+        cls2 = type("VfC11Slow", (BaseNode,), {"tag": "ps", "render": slow, "allowed_flags": [FLAG],
+                                               "end_tag": "endps" if self.block else None})
         cls2.register(lib)
+
+    def source(self, tag: str, targs: str, variant: int) -> str:
+        head = "{% " + tag + (" " + targs if targs else "")
+        if not self.block:
+            return head + " %}"
+        return head + " / %}" if variant % 2 else head + " %}body{% end" + tag + " %}"
 
 
 _LIB = None
@@ -238,11 +265,11 @@ def _fail(o: str, **extra) -> Dict[str, Any]:
     return d
 
 
-def observe_tag(pr: Probes, tag: str, targs: str, ctx: Dict[str, Any]) -> Dict[str, Any]:
+def observe_tag(pr: Probes, tag: str, targs: str, ctx: Dict[str, Any], variant: int = 0) -> Dict[str, Any]:
     """Render `{% <tag> <args> %}` through a real template; outcome + number of probe calls."""
     from django.template import Context, Template
     del pr.log[:]
-    src = "{% load vf_c11 %}{% " + tag + (" " + targs if targs else "") + " %}"
+    src = "{% load vf_c11 %}" + pr.source(tag, targs, variant)
     try:
         out = Template(src).render(Context(dict(ctx)))
         obs = _project(pr.sig, out)
@@ -278,10 +305,11 @@ def same(x: Dict[str, Any], y: Dict[str, Any]) -> bool:
 
 def run_case(pr: Probes, call, variant: int) -> Dict[str, Any]:
     targs, ctx, pyargs = call_sources(call, variant)
-    return {"template": "{% pf " + targs + " %}", "context": ctx, "python": "f(None, None, " + pyargs + ")",
+    return {"template": pr.source("pf", targs, variant), "context": ctx,
+            "python": "f(None, None, " + pyargs + ")",
             "py": observe_python(pr, pyargs),
-            "fast": observe_tag(pr, "pf", targs, ctx),
-            "slow": observe_tag(pr, "ps", targs, ctx)}
+            "fast": observe_tag(pr, "pf", targs, ctx, variant),
+            "slow": observe_tag(pr, "ps", targs, ctx, variant)}
 
 
 # ---------------------------------------------------------------- spec -> code
@@ -393,7 +421,8 @@ def model_check(chk: Check, name: str, bounds: Dict[str, Any], parts: int) -> Li
     for part in range(parts):
         cfg = w / f"{name}_{part}.cfg"
         out = w / f"{name}_{part}.ndjson"
-        _write_cfg(cfg, "MCSpec", dict(bounds, Parts=parts, Part=part), INVARIANTS, ["ErrorsAreSticky"])
+        consts = dict({"ParamKinds": set(RANK), "UseFlagValue": False}, **bounds)
+        _write_cfg(cfg, "MCSpec", dict(consts, Parts=parts, Part=part), INVARIANTS, ["ErrorsAreSticky"])
         jobs.append((cfg, out))
 
     def one(job):
@@ -475,18 +504,24 @@ def random_case(rnd: random.Random, max_params: int, max_items: int) -> Tuple[Li
     for _ in range(rnd.randint(0, max_items)):
         x = rnd.random()
         if x < 0.30:
-            call.append({"t": "P", "k": "", "n": 0, "ks": []})
+            call.append({"t": "P", "k": "", "n": 0, "ks": [], "fv": False})
         elif x < 0.62:
-            call.append({"t": "K", "k": rnd.choice(keys), "n": 0, "ks": []})
+            call.append({"t": "K", "k": rnd.choice(keys), "n": 0, "ks": [], "fv": False})
         elif x < 0.78:
-            call.append({"t": "L", "k": "", "n": rnd.randint(0, 3), "ks": []})
+            call.append({"t": "L", "k": "", "n": rnd.randint(0, 3), "ks": [], "fv": False})
         else:
             ks = rnd.sample(keys, rnd.randint(0, min(3, len(keys))))
-            call.append({"t": "D", "k": "", "n": 0, "ks": ks})
+            call.append({"t": "D", "k": "", "n": 0, "ks": ks, "fv": False})
     if ordered:
         call.sort(key=lambda it: 0 if it["t"] in ("P", "L") else 1)
     if sum({"P": 1, "K": 1}.get(it["t"], 0) + it["n"] + len(it["ks"]) for it in call) > 12:
         call = call[:3]
+    # `key=<variable named like the flag>`: kept apart from the shapes of the other known deviations
+    # (positional-only parameters, repeated special keys) so that findings stay separately keyed
+    plain = [it for it in call if it["t"] == "K"]
+    if plain and rnd.random() < 0.12 and not any(p["k"] == "po" for p in sig) and \
+            not any(k in SPECIAL for it in call for k in [it["k"]] + list(it["ks"])):
+        rnd.choice(plain)["fv"] = True
     return sig, call
 
 
@@ -587,6 +622,10 @@ QUICK = [
     # all signatures of <= 5 parameters x every single item (richer spreads and keys)
     ("p5i1", dict(MaxParams=5, MaxItems=1, MaxFlat=2, MaxSpread=2, MaxDict=2,
                   ExtraKeys={"u", "data-x", "class"}, UseVarNames=True), 8),
+    # extension - tags with flags: `key=<variable named like the flag>` (signatures without
+    # positional-only parameters, no special keys: keeps the known deviations separately keyed)
+    ("flagval", dict(MaxParams=2, MaxItems=2, MaxFlat=3, MaxSpread=1, MaxDict=1, ExtraKeys={"u"},
+                     UseVarNames=False, ParamKinds={"pk", "va", "ko", "vk"}, UseFlagValue=True), 2),
 ]
 THOROUGH = [
     # all signatures of <= 4 parameters x all calls of <= 3 items
@@ -598,6 +637,8 @@ THOROUGH = [
     # two-key dict spreads on the smaller signatures
     ("p3i2", dict(MaxParams=3, MaxItems=2, MaxFlat=4, MaxSpread=2, MaxDict=2,
                   ExtraKeys={"u", "data-x", "class"}, UseVarNames=True), 8),
+    ("flagval", dict(MaxParams=3, MaxItems=3, MaxFlat=3, MaxSpread=1, MaxDict=1, ExtraKeys={"u"},
+                     UseVarNames=False, ParamKinds={"pk", "va", "ko", "vk"}, UseFlagValue=True), 8),
 ]
 
 
